@@ -6,6 +6,7 @@
 
 /* ------------------------------------------------------------------ targets between guard words */
 #define GUARD 0xC3C3C3C3C3C3C3C3UL
+#define NOBODY 0xA5A5A5A5000000f0UL       /* bits of the flag word that belong to no option: 4..7 and the upper half of the unsigned long */
 static struct { unsigned long g0; unsigned long flags; unsigned long g1; int num; int gi1; int count; int gi2; unsigned long g2;
                 const char *file; unsigned long g3; const char *display; unsigned long g4; char **exec; unsigned long g5; } T;
 static char *g_theme; static int g_theme_calls, g_theme_null;
@@ -134,7 +135,7 @@ static void compare(const exp_t *e, const char *when, const char *shape)
 {
     if (T.g0 != GUARD || T.g1 != GUARD || T.g2 != GUARD || T.g3 != GUARD || T.g4 != GUARD || T.g5 != GUARD || T.gi1 != 0x5a5a5a5a || T.gi2 != 0x5a5a5a5a)
         FAIL("spifopt_parse", "invariant:guard-word-overwritten", shape, "%s: a guard word next to an option variable changed", when);
-    if (T.flags != e->flags) FAIL("spifopt_parse", "model:boolean-bits", shape, "%s: flags 0x%lx, expected 0x%lx (bits 0xf0 belong to nobody)", when, T.flags, e->flags);
+    if (T.flags != e->flags) FAIL("spifopt_parse", "model:boolean-bits", shape, "%s: flags 0x%lx, expected 0x%lx (bits 0xa5a5a5a5000000f0 belong to nobody)", when, T.flags, e->flags);
     if (T.num != e->num || T.count != e->count) FAIL("spifopt_parse", "model:integer", shape, "%s: num=%d count=%d, expected %d %d", when, T.num, T.count, e->num, e->count);
     if (!streq(T.file, e->file)) FAIL("spifopt_parse", "model:string", shape, "%s: file is %s%s%s, expected %s%s%s", when, T.file ? "\"" : "", T.file ? T.file : "unset", T.file ? "\"" : "", e->file ? "\"" : "", e->file ? e->file : "unset", e->file ? "\"" : "");
     if (!streq(T.display, e->display)) FAIL("spifopt_parse", "model:string", shape, "%s: display is %s, expected %s", when, T.display ? T.display : "unset", e->display ? e->display : "unset");
@@ -146,7 +147,7 @@ static void compare(const exp_t *e, const char *when, const char *shape)
 static void reset_targets(void)
 {
     memset(&T, 0, sizeof T);
-    T.g0 = T.g1 = T.g2 = T.g3 = T.g4 = T.g5 = GUARD; T.gi1 = T.gi2 = 0x5a5a5a5a; T.flags = 0xf0;
+    T.g0 = T.g1 = T.g2 = T.g3 = T.g4 = T.g5 = GUARD; T.gi1 = T.gi2 = 0x5a5a5a5a; T.flags = NOBODY;
     free(g_theme); g_theme = NULL; g_theme_calls = 0; g_theme_null = 0; g_help_calls = 0; g_diag = 0;
 }
 static void free_targets(void)
@@ -187,7 +188,7 @@ static void a_case(uint64_t idx, void *ctx)
     SPIFOPT_OPTLIST_SET(OPTS); SPIFOPT_NUMOPTS_SET(NOPT); SPIFOPT_ALLOWBAD_SET(0); SPIFOPT_BADOPTS_SET(bad0); SPIFOPT_HELPHANDLER_SET(help_stub);
     spifopt_settings.flags = 0;
     if (l.remove) SPIFOPT_FLAGS_SET(SPIFOPT_SETTING_REMOVE_ARGS);
-    exp_t e; memset(&e, 0, sizeof e); e.flags = 0xf0;
+    exp_t e; memset(&e, 0, sizeof e); e.flags = NOBODY;
     if (l.preparse) {
         SPIFOPT_FLAGS_SET(SPIFOPT_SETTING_PREPARSE);
         spifopt_parse(ac, argv);
@@ -253,7 +254,7 @@ static void b_case(uint64_t idx, void *ctx)
         if (SPIFOPT_BADOPTS_GET() < bad_before) FAIL("spifopt_parse", "model:bad-count-decreased", shape, "bad option count went from %u to %u", bad_before, (unsigned) SPIFOPT_BADOPTS_GET());
         bad_before = SPIFOPT_BADOPTS_GET();
     }
-    if ((T.flags & ~0x0fUL) != 0xf0) FAIL("spifopt_parse", "model:boolean-bits", shape, "bits outside every option mask changed: flags 0x%lx", T.flags);
+    if ((T.flags & ~0x0fUL) != NOBODY) FAIL("spifopt_parse", "model:boolean-bits", shape, "bits outside every option mask changed: flags 0x%lx", T.flags);
     if (T.g0 != GUARD || T.g1 != GUARD || T.g2 != GUARD || T.g3 != GUARD || T.g4 != GUARD || T.g5 != GUARD || T.gi1 != 0x5a5a5a5a || T.gi2 != 0x5a5a5a5a) FAIL("spifopt_parse", "invariant:guard-word-overwritten", shape, "a guard word next to an option variable changed");
     /* argv: still NULL-terminated within its block and a sub-sequence of the original pointers */
     { int j = 1, i; for (i = 1; i <= ac && argv[i]; i++) { while (j < ac && orig[j] != argv[i]) j++; if (j >= ac) { FAIL("spifopt_parse", "model:argv-not-a-subsequence", shape, "argv[%d] is not one of the original arguments in order", i); break; } j++; }
@@ -290,7 +291,7 @@ static void c_case(uint64_t idx, void *ctx)
     if (set & 1) { SPIFOPT_FLAGS_SET(SPIFOPT_SETTING_PREPARSE); spifopt_parse(ac, argv); }
     spifopt_parse(ac, argv);
     int unknown = 0; for (const char *c = BUN[bi].tok + 1; *c && *c != 'f' && *c != 'n'; c++) if (*c == 'z' || *c == 'q') unknown++;
-    if (T.flags != (0xf0 | BUN[bi].flags)) FAIL("spifopt_parse", "model:boolean-bits", shape, "flags 0x%lx after [%s], expected 0x%lx: the known letters of the bundle must still act", T.flags, BUN[bi].tok, 0xf0 | BUN[bi].flags);
+    if (T.flags != (NOBODY | BUN[bi].flags)) FAIL("spifopt_parse", "model:boolean-bits", shape, "flags 0x%lx after [%s], expected 0x%lx: the known letters of the bundle must still act", T.flags, BUN[bi].tok, NOBODY | BUN[bi].flags);
     if (!streq(T.file, BUN[bi].file)) FAIL("spifopt_parse", "model:string", shape, "file is %s after [%s]", T.file ? T.file : "unset", BUN[bi].tok);
     if (T.num != BUN[bi].num) FAIL("spifopt_parse", "model:integer", shape, "num=%d after [%s]", T.num, BUN[bi].tok);
     if ((int) SPIFOPT_BADOPTS_GET() != unknown * ((set & 1) ? 2 : 1)) FAIL("spifopt_parse", "model:bad-count", shape, "%d bad options counted for [%s], expected %d per pass", (int) SPIFOPT_BADOPTS_GET(), BUN[bi].tok, unknown);
@@ -319,7 +320,7 @@ static void d_entry(int i, spifopt_t *e)
     };
     *e = t[i];
 }
-static void d_desc(uint64_t idx, void *ctx, char *b, size_t n) { (void) ctx; if (idx >= 80) { snprintf(b, n, "table {BOOL('\\xe9'), INT('\\x80')}: prog [-%s]%s", (idx - 80) % 2 ? "\\x80] [7" : "\\xe9", (idx - 80) / 2 ? " with remove-args" : ""); return; } snprintf(b, n, "one-entry table built with %s: fields, then prog [%s] in a %s pass", DM[idx / 4], (idx / 2) % 2 ? "-o 1" : "--opt=1", idx % 2 ? "pre-parse" : "normal"); }
+static void d_desc(uint64_t idx, void *ctx, char *b, size_t n) { (void) ctx; if (idx >= 80) { if (idx >= 84) { snprintf(b, n, "table {BOOL('\\xe9', mask 0x80000004) on an unsigned long whose upper half holds 0x5a5a5a5a}: prog [--eacute=%s]", idx == 84 ? "no" : "yes"); return; } snprintf(b, n, "table {BOOL('\\xe9'), INT('\\x80')}: prog [-%s]%s", (idx - 80) % 2 ? "\\x80] [7" : "\\xe9", (idx - 80) / 2 ? " with remove-args" : ""); return; } snprintf(b, n, "one-entry table built with %s: fields, then prog [%s] in a %s pass", DM[idx / 4], (idx / 2) % 2 ? "-o 1" : "--opt=1", idx % 2 ? "pre-parse" : "normal"); }
 /* short letters above 0x7f (a table is free to use any byte as a letter) */
 static void d_highbit(uint64_t k)
 {
@@ -327,14 +328,19 @@ static void d_highbit(uint64_t k)
     const char *shape = "short letter with the high bit set"; mc_set_shape(shape);
     spifopt_t t[2] = { SPIFOPT_BOOL((char) 0xE9, "eacute", "d", d_flags, 0x80000004UL), SPIFOPT_INT((char) 0x80, "euro", "d", d_int) };       /* the mask uses bit 31 of its 32-bit field */
     one[0] = t[0]; one[1] = t[1];
-    d_flags = 0xf0; d_int = 0;
+    const unsigned long HI = 0x5A5A5A5A00000000UL;       /* the upper half of the flag word belongs to nobody: the mask field is 32 bits wide */
+    d_flags = HI | 0xf0 | (k == 4 ? 0x80000004UL : 0); d_int = 0;
     char sw[3] = { '-', (char) L[k % 2], 0 };
-    char *orig[3]; int ac = 0; orig[ac++] = mc_heapstr("prog"); orig[ac++] = mc_heapstr(sw); if (k % 2) orig[ac++] = mc_heapstr("7");
+    char *orig[3]; int ac = 0; orig[ac++] = mc_heapstr("prog"); orig[ac++] = mc_heapstr(k == 4 ? "--eacute=no" : (k == 5 ? "--eacute=yes" : sw)); if (k < 4 && k % 2) orig[ac++] = mc_heapstr("7");
     char **argv = malloc(sizeof(char *) * (size_t) (ac + 1)); memcpy(argv, orig, sizeof(char *) * (size_t) ac); argv[ac] = NULL;
     SPIFOPT_OPTLIST_SET(one); SPIFOPT_NUMOPTS_SET(2); SPIFOPT_ALLOWBAD_SET(9); SPIFOPT_BADOPTS_SET(0); SPIFOPT_HELPHANDLER_SET(help_stub);
     spifopt_settings.flags = (k / 2) ? SPIFOPT_SETTING_REMOVE_ARGS : 0;
     spifopt_parse(ac, argv);
-    if (k % 2 ? d_int != 7 : d_flags != 0x800000f4UL) FAIL("spifopt_parse", "model:high-bit-letter", shape, "-\\x%02x %s: flags=0x%lx int=%d, %u bad options", L[k % 2], k % 2 ? "7" : "", d_flags, d_int, (unsigned) SPIFOPT_BADOPTS_GET());
+    if (k >= 4) {
+        unsigned long want = HI | 0xf0 | (k == 5 ? 0x80000004UL : 0);
+        if (d_flags != want) FAIL("spifopt_parse", "model:boolean-bits", shape, "--eacute=%s with mask 0x80000004: flags 0x%lx, expected 0x%lx (booleans touch only their own mask bits)", k == 4 ? "no" : "yes", d_flags, want);
+    } else
+    if (k % 2 ? d_int != 7 : d_flags != (HI | 0x800000f4UL)) FAIL("spifopt_parse", "model:high-bit-letter", shape, "-\\x%02x %s: flags=0x%lx int=%d, %u bad options", L[k % 2], k % 2 ? "7" : "", d_flags, d_int, (unsigned) SPIFOPT_BADOPTS_GET());
     if (SPIFOPT_BADOPTS_GET()) FAIL("spifopt_parse", "model:bad-option-on-wellformed-line", shape, "%u bad options for a letter that is in the table", (unsigned) SPIFOPT_BADOPTS_GET());
     if ((k / 2) && argv[1] != NULL) FAIL("spifopt_parse", "model:argv-after-removal", shape, "the option was not removed from argv");
     for (int i = 0; i < ac; i++) free(orig[i]);
@@ -385,6 +391,6 @@ int main(int argc, char **argv)
     for (g_k = 0; g_k <= K; g_k++) if (!mc_e2_level("wellformed", g_k, lines_of(g_k), a_case, a_desc, NULL)) break;
     for (g_k = 0; g_k <= N; g_k++) if (!mc_e2_level("hostile", g_k, mc_words_of_len(NTOK, g_k) * 4, b_case, b_desc, NULL)) break;
     mc_e2_level("bundles", 1, (uint64_t) NBUN * 8, c_case, c_desc, NULL);
-    mc_e2_level("constructors", 1, 20 * 4 + 4, d_case, d_desc, NULL);
+    mc_e2_level("constructors", 1, 20 * 4 + 6, d_case, d_desc, NULL);
     return mc_finish();
 }
